@@ -173,7 +173,7 @@ pub fn install_panic_hook() {
             Some(l) => format!("{}:{}", l.file(), l.line()),
             None => "<unknown>".to_string(),
         };
-        if !loc.contains("/repo/") && !loc.contains("/verif/") && !loc.starts_with("src/") {
+        if !cfg!(miri) && !loc.contains("/repo/") && !loc.contains("/verif/") && !loc.starts_with("src/") {
             // the panic was raised inside std/core or a dependency: attribute it to the first
             // frame inside the repository (what a sanitizer report calls the first in-repo frame)
             let bt = std::backtrace::Backtrace::force_capture().to_string();
